@@ -1,5 +1,5 @@
 """Shared machinery of /verif/check: regenerate, build, audit, run both runners, verdict, evidence."""
-import hashlib, json, os, random, re, subprocess, sys, time
+import hashlib, itertools, json, os, random, re, subprocess, sys, time
 
 VERIF = os.path.dirname(os.path.dirname(os.path.abspath(__file__)))
 BUILD = os.path.join(VERIF, "build")
@@ -375,6 +375,20 @@ def load_known(prop):
     return known, fixed
 
 
+def corpus_cases(prop):
+    """committed regression corpus corpus/<id>/*.txt: minimised past disagreements and the failing inputs found for seeded
+    changes; run first by both tiers (one case line per text line, `#` comments)"""
+    d = os.path.join(VERIF, "corpus", prop)
+    if not os.path.isdir(d):
+        return
+    for f in sorted(os.listdir(d)):
+        if f.endswith(".txt"):
+            for line in open(os.path.join(d, f)):
+                line = line.split("#")[0].strip()
+                if line:
+                    yield line, "corpus"
+
+
 # ---------------------------------------------------------------------- the generic check
 def execute(mod, tier, seed, replay=None, repo="/repo"):
     run = Run(mod.ID, tier, seed, repo)
@@ -419,7 +433,7 @@ def execute(mod, tier, seed, replay=None, repo="/repo"):
         rp = json.load(open(replay))
         src = [(c, "replay") for c in rp.get("cases", [])]
     else:
-        src = mod.gen(run)
+        src = itertools.chain(corpus_cases(mod.ID), mod.gen(run))
     for line, stream in src:
         if line in seen:
             continue
